@@ -111,61 +111,37 @@ Lemma spec_set_no_fuel xs : spec_set xs <> Fuel.
 Proof. apply omap_no_fuel, ofold_no_fuel. intros; apply spec_set_step_no_fuel. Qed.
 
 (* ---------- dict ---------- *)
-(* the item unpacking the model performs: only tuples unpack *)
-Definition model_dict_step (acc : list (val * val)) (x : val) : outcome (list (val * val)) :=
-  match x with
-  | VTup [k; v] => if hashable k then Ok (spec_dict_put acc k v) else Exn XTypeError
-  | VTup _ => Exn XValueError
-  | _ => Exn XTypeError
-  end.
 Lemma spec_dict_put_eq acc k v : dict_put acc k v = spec_dict_put acc k v.
 Proof. induction acc as [|[k' v'] r IH]; cbn; [reflexivity|]. rewrite IH. reflexivity. Qed.
-Lemma model_dict_step_no_fuel a x : model_dict_step a x <> Fuel.
+Lemma spec_dict_step_no_fuel a x : spec_dict_step a x <> Fuel.
 Proof.
-  unfold model_dict_step. destruct x as [| | | | |l|]; try congruence.
-  destruct l as [|k [|v [|? ?]]]; try congruence. destruct (hashable k); congruence.
+  unfold spec_dict_step, unpack2. destruct x as [| | | | |l|l]; try congruence;
+  destruct l as [|k [|v [|? ?]]]; try congruence; destruct (hashable k); congruence.
 Qed.
+(* the item unpacking of the model is "k, v = item" of the specification: 2-tuples and 2-lists *)
 Lemma bodyDict :
   body_is (fun acc x =>
              match x with
-             | VTup [k; v] => if hashable k then ret (dict_put acc k v, true) else raise XTypeError
-             | VTup _ => raise XValueError
+             | VTup [k; v] | VList [k; v] => if hashable k then ret (dict_put acc k v, true) else raise XTypeError
+             | VTup _ | VList _ => raise XValueError
              | _ => raise XTypeError
              end)
-          (fun s x => omap (fun a => (a, true)) (model_dict_step s x)) evsNil.
+          (fun s x => omap (fun a => (a, true)) (spec_dict_step s x)) evsNil.
 Proof.
-  intros s x xs lg u. exists u. unfold model_dict_step. destruct x as [| | | | |l|]; try reflexivity.
-  destruct l as [|k [|v [|? ?]]]; try reflexivity. rewrite spec_dict_put_eq. destruct (hashable k); reflexivity.
+  intros s x xs lg u. exists u. unfold spec_dict_step, unpack2. destruct x as [| | | | |l|l]; try reflexivity;
+  (destruct l as [|k [|v [|? ?]]]; try reflexivity; rewrite spec_dict_put_eq; destruct (hashable k); reflexivity).
 Qed.
 Definition dict_val (l : list (val * val)) : val := VList (map (fun kv => VTup [fst kv; snd kv]) l).
-Lemma dict_model : forall xs,
-  let '(o, w) := a_dict (init_world [xs] None) in
-  o = omap dict_val (ofold model_dict_step xs []) /\ all_released w = true.
+
+(* dict(iterable_of_pairs), all inputs: pairs may be 2-tuples or 2-lists *)
+Theorem dict_spec : forall xs,
+  let '(o, w) := a_dict (init_world [xs] None) in o = spec_dict xs /\ all_released w = true.
 Proof.
   intros xs. unfold a_dict. rewrite init_world1.
   destruct (fold_loop _ _ bodyDict xs [] [] 0) as (rest & exh & lg' & u' & Hl).
   erewrite (bind_ret_map _ (fun r : list (val * val) * bool => dict_val (fst r))).
-  2:{ apply scoped_r; [exact Hl|]. apply omap_no_fuel, ofold_no_fuel. intros; apply model_dict_step_no_fuel. }
+  2:{ apply scoped_r; [exact Hl|]. apply omap_no_fuel, ofold_no_fuel. intros; apply spec_dict_step_no_fuel. }
   split; [|apply released_Wc]. rewrite omap_omap. reflexivity.
-Qed.
-
-(* CPython (and "key, value = item" in general) also unpacks a two-element LIST; the model raises
-   TypeError for it: the full statement is false for the model *)
-Theorem dict_spec_refuted : exists xs,
-  fst (a_dict (init_world [xs] None)) <> spec_dict xs.
-Proof. exists [VList [VInt 1; VInt 2]]. vm_compute. discriminate. Qed.
-
-(* the strongest true variant: no item of the input is a list *)
-Definition not_list (x : val) : bool := match x with VList _ => false | _ => true end.
-Theorem dict_spec_partial : forall xs,
-  forallb not_list xs = true ->
-  let '(o, w) := a_dict (init_world [xs] None) in o = spec_dict xs /\ all_released w = true.
-Proof.
-  intros xs H. pose proof (dict_model xs) as Hm. destruct (a_dict (init_world [xs] None)) as [o w].
-  destruct Hm as [-> Hr]. split; [|exact Hr]. unfold spec_dict, dict_val. f_equal.
-  apply ofold_ext_in. intros a x Hx. rewrite forallb_forall in H. specialize (H x Hx).
-  unfold model_dict_step, spec_dict_step, unpack2. destruct x as [| | | | |l|l]; try reflexivity; [|discriminate].
-  destruct l as [|k [|v [|? ?]]]; reflexivity.
 Qed.
 Lemma spec_dict_no_fuel xs : spec_dict xs <> Fuel.
 Proof.
@@ -176,10 +152,12 @@ Proof.
     destruct l as [|k [|v [|? ?]]]; discriminate.
 Qed.
 Example dict_example :
-  forallb not_list [VTup [VInt 1; VInt 5]; VTup [VInt 2; VInt 6]; VTup [VBool true; VInt 7]] = true
-  /\ spec_dict [VTup [VInt 1; VInt 5]; VTup [VInt 2; VInt 6]; VTup [VBool true; VInt 7]]
-     = Ok (VList [VTup [VInt 1; VInt 7]; VTup [VInt 2; VInt 6]]).
-Proof. split; reflexivity. Qed.
+  spec_dict [VTup [VInt 1; VInt 5]; VList [VInt 2; VInt 6]; VTup [VBool true; VInt 7]]
+     = Ok (VList [VTup [VInt 1; VInt 7]; VTup [VInt 2; VInt 6]])
+  /\ spec_dict [VList [VInt 1; VInt 5]; VList [VInt 2]] = Exn XValueError
+  /\ spec_dict [VTup [VList []; VInt 5]] = Exn XTypeError
+  /\ spec_dict [VInt 3] = Exn XTypeError.
+Proof. repeat split; reflexivity. Qed.
 
 (* ---------- functools.reduce ---------- *)
 Definition stepR (f : list val -> val) (value head : val) : outcome (val * bool) := Ok (f [value; head], true).
@@ -240,7 +218,5 @@ Print Assumptions sum_spec.
 Print Assumptions list_spec.
 Print Assumptions tuple_spec.
 Print Assumptions set_spec.
-Print Assumptions dict_model.
-Print Assumptions dict_spec_refuted.
-Print Assumptions dict_spec_partial.
+Print Assumptions dict_spec.
 Print Assumptions reduce_spec.
